@@ -420,14 +420,21 @@ def unifyE : Nat → List (Term × Term) → Option (Option (Nat → Term))
       if g = h ∧ as.length = bs.length then unifyE f (zipArgs as bs ++ rest) else some none
     | s, t => if s = t then unifyE f rest else some none
 
+/-- the fuel given to the Robinson unifier -/
+def unifyFuel (a b : Term) : Nat := 4 * (a.size + b.size) * (max (boundT a) (boundT b) + 2) + 8
+
 /-- `Env.Unify` on resolved terms: matching when one side is ground, Robinson otherwise -/
 def unifyM (a b : Term) : Option (Nat → Term) :=
   if groundT b then (matchT a b []).map Subst.fn
   else if groundT a then (matchT b a []).map Subst.fn
   else
-    match unifyE (4 * (a.size + b.size) * (max (boundT a) (boundT b) + 2) + 8) [(a, b)] with
+    match unifyE (unifyFuel a b) [(a, b)] with
     | some r => r
     | none => none
+
+/-- `unifyM a b` did not run out of fuel (checked by the driver on every unification of a run) -/
+def unifyDefinedB (a b : Term) : Bool :=
+  groundT b || groundT a || (unifyE (unifyFuel a b) [(a, b)]).isSome
 
 def tuple (ts : List Term) : Term := .app "" (Args.ofList ts)
 
@@ -620,6 +627,19 @@ def sld (clauses : List Clause) : Nat → List Term → List Term → Answers
       | some δ =>
         sld clauses f ((c.2.map (substT (shift next)) ++ gs).map (substT δ)) (args.map (substT δ))
       | none => []
+
+/-- no unification of the run `sld clauses f goals args` ran out of fuel -/
+def sldDefinedB (clauses : List Clause) : Nat → List Term → List Term → Bool
+  | 0, _, _ => true
+  | _ + 1, [], _ => true
+  | f + 1, g :: gs, args =>
+    clauses.all fun c =>
+      let next := boundL (g :: gs ++ args)
+      unifyDefinedB g (substT (shift next) c.1) &&
+        match unifyM g (substT (shift next) c.1) with
+        | some δ =>
+          sldDefinedB clauses f ((c.2.map (substT (shift next)) ++ gs).map (substT δ)) (args.map (substT δ))
+        | none => true
 
 def headIs (name : String) (arity : Nat) (c : Term) : Bool :=
   match (clauseParts c).1 with
